@@ -133,9 +133,9 @@ def binOpAt (k : Nat) : PTok → Option Name
 mutual
 /-- An operand (`expu`). The Boolean tells whether it was reduced through `value` (only then may an
     `=` follow at statement start). -/
-def pPrimary : Nat → Registry → List PTok → Option (Ast × List PTok × Bool)
-  | 0, _, _ => none
-  | f + 1, reg, ts =>
+def pPrimary : Nat → List PTok → Option (Ast × List PTok × Bool)
+  | 0, _ => none
+  | f + 1, ts =>
     match ts with
     | .string t :: r => some (.leaf (.str t), r, true)
     | .number t :: r => some (.leaf (.num t), r, true)
@@ -149,124 +149,124 @@ def pPrimary : Nat → Registry → List PTok → Option (Ast × List PTok × Bo
       match r with
       | t :: _ =>
         if startsOperand t then
-          match pPrimary f reg r with
+          match pPrimary f r with
           | some (a, r', _) => some (.unary n a, r', false)
           | none => none
         else some (.leaf (.nular n), r, true)
       | [] => some (.leaf (.nular n), r, true)
     | .op .bu _ n :: r =>
-      match pPrimary f reg r with
+      match pPrimary f r with
       | some (a, r', _) => some (.unary n a, r', false)
       | none => none
     | .opU n :: r =>
-      match pPrimary f reg r with
+      match pPrimary f r with
       | some (a, r', _) => some (.unary n a, r', false)
       | none => none
     | .opUN n :: r =>
-      match pPrimary f reg r with
+      match pPrimary f r with
       | some (a, r', _) => some (.unary n a, r', false)
       | none => none
     | .tPrivate :: r =>
-      match pPrimary f reg r with
-      | some (a, r', _) => some (.unary (bytes "private") a, r', false)
+      match pPrimary f r with
+      | some (a, r', _) => some (.unary (kwPrivate) a, r', false)
       | none => none
     | .roundO :: r =>
-      match pExp f reg 1 r with
+      match pExp f 1 r with
       | some (a, .roundC :: r') => some (a, r', false)
       | _ => none
     | .curlyO :: r =>
-      match pStatements f reg (skipSeps r) with
+      match pStatements f (skipSeps r) with
       | some (ss, .curlyC :: r') => some (.code ss, r', true)
       | _ => none
     | .squareO :: .squareC :: r => some (.array [], r, true)
     | .squareO :: r =>
-      match pExp f reg 1 r with
+      match pExp f 1 r with
       | some (e, r') =>
-        match pArrayTail f reg r' with
+        match pArrayTail f r' with
         | some (es, r'') => some (.array (e :: es), r'', true)
         | none => none
       | none => none
     | _ => none
 
 /-- `exp_{k-1}` of the grammar: an operand followed by the loops of levels 10 … k. -/
-def pExp : Nat → Registry → Nat → List PTok → Option (Ast × List PTok)
-  | 0, _, _, _ => none
-  | f + 1, reg, k, ts =>
-    match pPrimary f reg ts with
-    | some (a, r, _) => pExpSeed f reg k a r
+def pExp : Nat → Nat → List PTok → Option (Ast × List PTok)
+  | 0, _, _ => none
+  | f + 1, k, ts =>
+    match pPrimary f ts with
+    | some (a, r, _) => pExpSeed f k a r
     | none => none
 
 /-- Continue after the first operand: apply the left-recursive loops of levels 10 … k. -/
-def pExpSeed : Nat → Registry → Nat → Ast → List PTok → Option (Ast × List PTok)
-  | 0, _, _, _, _ => none
-  | f + 1, reg, k, a, ts =>
+def pExpSeed : Nat → Nat → Ast → List PTok → Option (Ast × List PTok)
+  | 0, _, _, _ => none
+  | f + 1, k, a, ts =>
     if top ≤ k then some (a, ts)
-    else match pExpSeed f reg (k + 1) a ts with
-      | some (a', r) => pLoop f reg k a' r
+    else match pExpSeed f (k + 1) a ts with
+      | some (a', r) => pLoop f k a' r
       | none => none
 
 /-- The left-recursive alternatives of level `k`: `acc op_k operand op_k operand …`. -/
-def pLoop : Nat → Registry → Nat → Ast → List PTok → Option (Ast × List PTok)
-  | 0, _, _, _, _ => none
-  | f + 1, reg, k, acc, ts =>
+def pLoop : Nat → Nat → Ast → List PTok → Option (Ast × List PTok)
+  | 0, _, _, _ => none
+  | f + 1, k, acc, ts =>
     match ts with
     | t :: r =>
       match binOpAt k t with
       | some nm =>
-        match pExp f reg (k + 1) r with
-        | some (b, r') => pLoop f reg k (.binary k nm acc b) r'
+        match pExp f (k + 1) r with
+        | some (b, r') => pLoop f k (.binary k nm acc b) r'
         | none => none
       | none => some (acc, ts)
     | [] => some (acc, ts)
 
 /-- `"," expression` repeated, then `"]"`. -/
-def pArrayTail : Nat → Registry → List PTok → Option (List Ast × List PTok)
-  | 0, _, _ => none
-  | f + 1, reg, ts =>
+def pArrayTail : Nat → List PTok → Option (List Ast × List PTok)
+  | 0, _ => none
+  | f + 1, ts =>
     match ts with
     | .squareC :: r => some ([], r)
     | .comma :: r =>
-      match pExp f reg 1 r with
+      match pExp f 1 r with
       | some (e, r') =>
-        match pArrayTail f reg r' with
+        match pArrayTail f r' with
         | some (es, r'') => some (e :: es, r'')
         | none => none
       | none => none
     | _ => none
 
 /-- One statement: `private IDENT = expression`, `value = expression`, or an expression. -/
-def pStatement : Nat → Registry → List PTok → Option (Ast × List PTok)
-  | 0, _, _ => none
-  | f + 1, reg, ts =>
+def pStatement : Nat → List PTok → Option (Ast × List PTok)
+  | 0, _ => none
+  | f + 1, ts =>
     match ts with
     | .tPrivate :: .ident n :: .equal :: r =>
-      match pExp f reg 1 r with
+      match pExp f 1 r with
       | some (e, r') => some (.assignLocal n e, r')
       | none => none
     | _ =>
-      match pPrimary f reg ts with
+      match pPrimary f ts with
       | some (a, .equal :: r, true) =>
-        match pExp f reg 1 r with
+        match pExp f 1 r with
         | some (e, r') => some (.assign a e, r')
         | none => none
-      | some (a, r, _) => pExpSeed f reg 1 a r
+      | some (a, r, _) => pExpSeed f 1 a r
       | none => none
 
 /-- Statements separated by one or more `;`/`,` (leading separators already skipped; trailing ones
     allowed).  Stops in front of the first token that cannot start a statement. -/
-def pStatements : Nat → Registry → List PTok → Option (List Ast × List PTok)
-  | 0, _, _ => none
-  | f + 1, reg, ts =>
+def pStatements : Nat → List PTok → Option (List Ast × List PTok)
+  | 0, _ => none
+  | f + 1, ts =>
     match ts with
     | [] => some ([], [])
     | t :: _ =>
       if startsOperand t then
-        match pStatement f reg ts with
+        match pStatement f ts with
         | some (s, r) =>
           match r with
           | t' :: _ =>
             if isSep t' then
-              match pStatements f reg (skipSeps r) with
+              match pStatements f (skipSeps r) with
               | some (ss, r') => some (s :: ss, r')
               | none => none
             else some ([s], r)
@@ -276,11 +276,11 @@ def pStatements : Nat → Registry → List PTok → Option (List Ast × List PT
 end
 
 /-- `start`: the whole token stream must be consumed up to `eof`. -/
-def parseToks (reg : Registry) (ts : List PTok) : Option (List Ast) :=
-  match pStatements (16 * ts.length + 64) reg (skipSeps ts) with
+def parseToks (ts : List PTok) : Option (List Ast) :=
+  match pStatements (16 * ts.length + 64) (skipSeps ts) with
   | some (ss, [.eof]) => some ss
   | _ => none
 
-def parse (reg : Registry) (s : List B) : Option (List Ast) := parseToks reg (ptoks reg s)
+def parse (reg : Registry) (s : List B) : Option (List Ast) := parseToks (ptoks reg s)
 
 end Sqf
